@@ -55,7 +55,9 @@ def run(run):
         for case in range(6 if quick else 80):
             root = C.scratch("c20")
             try:
-                name = rng.choice(["java", "android", "my-rules", "r2"])
+                # (ruleset names of every shape, in turn: also ones that begin with the letters of the `cpf/` prefix)
+                NAMES = ["java", "python", "my-rules", "cpp", "android", "frontend", "r2", "crypto-rules", "cpf", "c", "fcp.v2", "pf_rules"]
+                name = NAMES[case % len(NAMES)]
                 rdir = os.path.join(root, "pathfinder-rules", name)
                 os.makedirs(rdir)
                 os.makedirs(os.path.join(root, "pathfinder-rules", "gen-script"))
